@@ -54,6 +54,10 @@ def gen_movie(rng, thorough=False, plant_history=False, dense=False):
     Rmax = max(sr) / 4.0
     # lattice side: mean number of particles within range of one another between 0.3 and 4
     target = rng.choice([0.3, 1.0, 2.0, 4.0]) if not dense else rng.choice([3.0, 6.0])
+    if npart > 12:
+        # large levels: keep sub-nets small enough for the branch and bound (the code's and the
+        # monitor's) to finish in bounded time
+        target = rng.choice([0.3, 0.6, 1.0])
     vol_ball = {1: 2 * Rmax, 2: 3.14 * Rmax ** 2, 3: 4.19 * Rmax ** 3}[dim]
     side = max(2, int(round((max(npart, 1) * vol_ball / target) ** (1.0 / dim))))
     step = max(1, int(Rmax))
